@@ -318,7 +318,10 @@ func Exp2(d Decimal) Decimal {
 	var expInt int16
 
 	if dSigInt != 0 {
-		if dSigInt > exponentBias+maxDigits {
+		// 2**20600 is about 10**6201: beyond the decimal exponent range in
+		// either direction. Everything below goes through the full
+		// calculation (2**20414 is still finite, 2**-20517 still non-zero).
+		if dSigInt > 20600 {
 			if d.Signbit() {
 				return zero(false)
 			}
